@@ -43,6 +43,8 @@ type ChainCfg struct {
 	RuleStyle        int  // 0 strict (MATCH + DISALLOW *), 1 lenient (ALLOW *), 2 random
 	OddStepNames     bool // C15: step names with pattern metacharacters etc. (crash search)
 	CertSteps        bool
+	SubFlattenPct    int    // chance (percent) that a sublayout's links are put into the parent's directory (no sublayout directory)
+	CertOnlyPct      int    // chance (percent) that a certificate step has no public keys, one constraint, threshold 2-3 and that many holders
 	CertChainBias    string // chain kind used for 60% of the certificate steps ("" = uniform)
 	Differ           bool   // C05: make one counted link disagree
 	Marker           string
@@ -205,11 +207,16 @@ func (g *chainGen) buildLevel(depth int, initial Files, signers []*TestKey, name
 		// certificate route
 		var certLeafKey *TestKey
 		var certChain string
+		certOnly := 0
 		if cfg.CertSteps && top && rng.Chance(60) {
 			certLeafKey = pool()[3]
 			certChain = rng.Pick([]string{"direct", "inter-layout", "inter-caller", "expired-leaf", "foreign-root", "missing-inter", "direct", "inter-layout", "foreign-inter-caller", "foreign-root-caller", "expired-inter-old-leaf"})
 			if cfg.CertChainBias != "" && rng.Chance(60) {
 				certChain = cfg.CertChainBias
+			}
+			wantCertOnly := cfg.CertOnlyPct > 0 && rng.Chance(cfg.CertOnlyPct)
+			if wantCertOnly {
+				certChain = rng.Pick([]string{"direct", "inter-layout", "inter-layout", "inter-caller"})
 			}
 			cs := setupChain(certChain)
 			if len(rootIDs) == 0 {
@@ -231,6 +238,19 @@ func (g *chainGen) buildLevel(depth int, initial Files, signers []*TestKey, name
 			constraint := O("common_name", rng.Pick([]string{"*", "builder", "builder", "other"}), "dns_names", []any{"*"}, "emails", []any{"*"},
 				"organizations", []any{rng.Pick([]string{"*", "org-one"})}, "roots", []any{"*"}, "uris", []any{"*"})
 			st = st.Set("cert_constraints", []any{constraint})
+			if wantCertOnly {
+				// ONE constraint, NO public keys, threshold 2 (or 3): one constraint admits any number of
+				// distinct certificate holders (seeded change c02-unsatisfiable-precheck-counts-constraints)
+				certOnly = 2 + rng.Intn(2)
+				constraint = O("common_name", "*", "dns_names", []any{"*"}, "emails", []any{"*"}, "organizations", []any{"*"}, "roots", []any{"*"}, "uris", []any{"*"})
+				st = st.Set("cert_constraints", []any{constraint})
+				st = st.Set("pubkeys", []any{})
+				threshold = certOnly
+				if rng.Chance(25) {
+					certOnly-- // one holder too few
+				}
+				lv.Feat = append(lv.Feat, "cert-only")
+			}
 		}
 		st = st.Set("expected_command", cmd)
 		st = st.Set("threshold", JNum(fmt.Sprint(threshold)))
@@ -276,6 +296,9 @@ func (g *chainGen) buildLevel(depth int, initial Files, signers []*TestKey, name
 		if rng.Chance(shortPct) && honest > 0 {
 			honest-- // one too few
 			lv.Feat = append(lv.Feat, "short")
+		}
+		if certOnly > 0 {
+			honest = 0
 		}
 		certNeeded := false
 		if certLeafKey != nil && honest > 0 && rng.Chance(50) {
@@ -328,7 +351,21 @@ func (g *chainGen) buildLevel(depth int, initial Files, signers []*TestKey, name
 				g.seq++
 				sub := g.buildLevel(depth-1, mats, []*TestKey{f}, fmt.Sprintf("s%d", g.seq), false)
 				put(shortID(f.ID), sub.LayoutFile)
-				subs[name+"."+shortID(f.ID)] = sub.Dir
+				if cfg.SubFlattenPct > 0 && rng.Chance(cfg.SubFlattenPct) {
+					// the sublayout's directory does NOT exist; its links lie in the PARENT's directory:
+					// a sublayout is verified against its own directory only
+					// (seeded change c08-sublayout-falls-back-to-parent-dir)
+					if sf, ok := sub.Dir["files"].(map[string]any); ok {
+						for fn, ft := range sf {
+							if _, clash := files[fn]; !clash {
+								files[fn] = ft
+							}
+						}
+					}
+					lv.Feat = append(lv.Feat, "sub-flattened")
+				} else {
+					subs[name+"."+shortID(f.ID)] = sub.Dir
+				}
 				prods = sub.Last
 				p = prods
 				lv.Feat = append(lv.Feat, "sublayout")
@@ -480,6 +517,21 @@ func (g *chainGen) buildLevel(depth int, initial Files, signers []*TestKey, name
 					p = oddProds
 				}
 				put(infix, g.wrapSign(linkTree(name, mats, p, cmd), false, specs))
+			}
+		}
+		if certOnly > 0 {
+			cs := setupChain(certChain)
+			for h, leaf := range []*TestKey{pool()[3], pool()[9], pool()[2]}[:certOnly] {
+				cert, pemS, err := mintLeaf(LeafSpec{CN: fmt.Sprintf("holder%d", h), Orgs: []string{"org-one"}, DNS: []string{"a.example.org"}, Valid: "ok"}, leaf.Signer.Public(), cs.Issuer)
+				if err != nil {
+					continue
+				}
+				info := certInfo(cert, cs.GroundTruthOK)
+				info["needs_caller"] = cs.GroundTruthOK && len(cs.CallerInters) > 0
+				ck := map[string]any{"keyid": leaf.ID, "keytype": leaf.Pub.KeyType, "scheme": leaf.Pub.Scheme, "public": leaf.Pub.KeyVal.Public, "private": "", "certificate": pemS}
+				g.w.Certs[pemS] = map[string]any{"key": ck, "info": info}
+				g.w.addKeyMaterial(ck)
+				put(shortID(leaf.ID), g.wrapSign(linkTree(name, mats, prods, cmd), false, []sigSpec{{key: leaf, certPEM: pemS}}))
 			}
 		}
 		if cfg.OddStepNames && top && len(fs) > 0 {
@@ -637,7 +689,11 @@ func artsOut(m map[string]intoto.HashObj) any {
 }
 
 func toIntotoKey(m map[string]any) intoto.Key {
-	return intoto.Key{KeyID: str(m["keyid"]), KeyType: str(m["keytype"]), Scheme: str(m["scheme"]), KeyIDHashAlgorithms: []string{"sha256", "sha512"},
+	algs := []string{"sha256", "sha512"}
+	if a, ok := m["algs"].([]any); ok {
+		algs = anyStrs(a)
+	}
+	return intoto.Key{KeyID: str(m["keyid"]), KeyType: str(m["keytype"]), Scheme: str(m["scheme"]), KeyIDHashAlgorithms: algs,
 		KeyVal: intoto.KeyVal{Public: str(m["public"]), Private: str(m["private"]), Certificate: str(m["certificate"])}}
 }
 
@@ -834,6 +890,9 @@ func genChainCase(r *Runner, rng *Rng, cfg *ChainCfg) Case {
 	for _, s := range signers {
 		k := keyJSON(s, false)
 		k["mapkey"] = s.ID
+		if a, ok := keyAlgOrder[s.ID]; ok {
+			k["algs"] = a
+		}
 		vkeys = append(vkeys, k)
 		w.addKeyMaterial(k)
 	}
@@ -914,6 +973,29 @@ func genChainCase(r *Runner, rng *Rng, cfg *ChainCfg) Case {
 	case "verifier-subset":
 		if len(vkeys) > 1 {
 			vkeys = vkeys[:1]
+		}
+	case "payload-case-dup":
+		// envelope only: an attacker-written member "payload" (a layout without steps and
+		// inspections) and, later in the object, the authentically signed payload under "PAYLOAD":
+		// what is verified and what is enforced must be the same member
+		// (seeded change c01-dsse-payload-key-case-differential); the reverse order as well
+		if cfg.LayoutDSSE {
+			orig := str(layoutFile.Get("payload"))
+			evil := base64StdEnc(`{"_type":"layout","expires":"2999-01-01T00:00:00Z","inspect":[],"keys":{},"readme":"evil","steps":[]}`)
+			cp := copyJ(layoutFile).(JObj)
+			var no JObj
+			for _, kv := range cp {
+				if kv.K == "payload" {
+					if rng.Chance(70) {
+						no = append(no, JKV{"payload", evil}, JKV{rng.Pick([]string{"PAYLOAD", "Payload", "payLoad"}), orig})
+					} else {
+						no = append(no, JKV{"Payload", evil}, JKV{"payload", orig})
+					}
+					continue
+				}
+				no = append(no, kv)
+			}
+			layoutFile = no
 		}
 	case "verifier-keytype", "verifier-scheme":
 		// a supplied verifier key the library cannot use (unknown key type / scheme not fitting the
